@@ -147,6 +147,9 @@ type Machine struct {
 
 	// statistics
 	N map[string]int
+	// Held are address objects handed out by the current manager instance
+	// while it was locked (dropped at a restart).
+	Held []HeldAddr
 
 	wifPool int
 	lastCT  map[waddrmgr.CryptoKeyType][]byte
@@ -382,6 +385,7 @@ func (m *Machine) Restart() {
 	m.DB.AfterCommit = old.AfterCommit
 	m.openManager()
 	m.N["restart"]++
+	m.Held = nil
 }
 
 // SortedScopes lists the scopes in a deterministic order.
@@ -439,3 +443,9 @@ func (m *Machine) privOK(a *AcctModel) bool {
 }
 
 var _ = btcec.PrivKeyBytesLen
+
+// HeldAddr is an address object kept by the caller across later operations.
+type HeldAddr struct {
+	MA waddrmgr.ManagedAddress
+	Is *Issued
+}
